@@ -74,9 +74,18 @@ class World:
             mem = hist["init"]["mem"][i - 1]
             if mem:
                 self.obj[i].update([self.obj[m] for m in mem])
+        shared = {}
         for i in range(1, self.n + 1):
-            for r in hist["init"]["req"][i - 1]:
-                self.obj[i].requires(self.obj[r])
+            reqs = hist["init"]["req"][i - 1]
+            if hist.get("sharedset") and reqs and isinstance(self.obj[i], AbstractJob):
+                # the caller hands the very same set object to every job with these requirements
+                key = tuple(reqs)
+                if key not in shared:
+                    shared[key] = {self.obj[r] for r in reqs}
+                self.obj[i].requires(shared[key])
+            else:
+                for r in reqs:
+                    self.obj[i].requires(self.obj[r])
 
     def idof(self, o):
         return self.ident.get(id(o), 0)
@@ -140,6 +149,22 @@ class World:
                     break
             return seen
         guarded("iter_x", lazily)
+
+        def topo_lazily():
+            """topological_order() consumed step by step while the query API is used"""
+            seen = []
+            for item in s.topological_order():
+                seen.append(item)
+                s.predecessors_upstream(item)
+                s.successors_downstream(item)
+                list(s.exit_jobs())
+            return seen
+        try:
+            out["topo_x"] = self.ids(topo_lazily())
+            out["topo_xexc"] = "none"
+        except BaseException as exc:                    # pylint: disable=W0703
+            out["topo_x"] = []
+            out["topo_xexc"] = type(exc).__name__
         out.setdefault("qexc", "none")
         out["len"] = len(s)
         return out
